@@ -113,3 +113,27 @@ fn m9_count_chars_equals_std() {
         }
     }
 }
+
+#[test]
+fn m10_crlf_models_equal_std() {
+    let alphabet = ['\r', '\n', 'a', '\'', 'é'];
+    let mut all = vec![String::new()];
+    let mut frontier = vec![String::new()];
+    for _ in 0..6 {
+        let mut next = Vec::new();
+        for s in &frontier {
+            for c in alphabet {
+                let mut t = s.clone();
+                t.push(c);
+                next.push(t);
+            }
+        }
+        all.extend(next.iter().cloned());
+        frontier = next;
+    }
+    for s in &all {
+        assert_eq!(contains_crlf(s), s.contains("\r\n"), "{s:?}");
+        assert_eq!(replace_crlf_with_lf(s), s.replace("\r\n", "\n"), "{s:?}");
+    }
+    assert!(all.len() > 19_000);
+}
